@@ -4,6 +4,10 @@ NOTES = ("All checks go through ./check <ID>: real sources of /repo's working tr
          "harness is dual-mode); 2 undecided/infrastructure (never a violation). See DESIGN.md.")
 TODO = "contracts for this property are not built yet in this revision (see DESIGN.md section 5 for the plan); not claimed"
 CHECKS = {
+ "C03": dict(category="other", design_ref="DESIGN.md section 5, C03",
+   technique="CBMC contracts on the real counter/formatting helpers (complete, SAT) and on bash-f against the standard's 24-round algorithm (cvc5/z3), brng.c/botp.c/bash_f64.c included textually for their static functions",
+   text="Partial. Complete (all inputs) for brngBlockInc/Neg/Xor2 (256-bit counter incl. the wrap of all 256 bits, exact 32-octet object), botpCtrNext, botpTimeToCtr, memory safety of botpDT; bash-f: six rounds of the file's round macro + all 24 round constants against STB 34.101.77 in the quick tier, the full 24-round permutation for all 2^1536 states in the thorough tier (cvc5). The dynamic-truncation value of botpDT, sponge/automaton buffering, generator recurrences and OCRA parsing are not decided (native search stands in where listed).",
+   note="Not covered: bash hash/prg buffering and padding, brng CTR/HMAC recurrences, botp HOTP/TOTP/OCRA protocol level, non-64-bit bash-f variants."),
  "C12": dict(category="other", design_ref="DESIGN.md section 5, C12",
    technique="CBMC contract on the loop-free date validators (all inputs, SAT / z3)",
    text="Partial: the YYMMDD / (y,m,d) date validators are proved equal to the Gregorian rule plus 'six decimal digits' for every input (complete). The parameter, key, primality and irreducibility validators named by the property are NOT decided by this check: their verdicts are number theory (modular exponentiation, polynomial arithmetic) outside every installed back end; they are listed under not_covered in the evidence.",
@@ -26,7 +30,7 @@ CHECKS = {
    note="Trusted: CBMC 6.11; rewrite rule R1 (enum bit-field pre-decrement, front-end crash workaround, must-fire); the monitor's reading of the rules (stated in evidence.assumptions)."),
 }
 NOT_APPLICABLE = {
- "C01": TODO, "C02": TODO, "C03": TODO, "C04": TODO, "C07": TODO, "C09": TODO,
+ "C01": TODO, "C02": TODO,  "C04": TODO, "C07": TODO, "C09": TODO,
  "C10": TODO, "C11": TODO,  "C15": TODO, "C16": TODO, "C17": TODO, "C19": TODO,
  "C06": "EC group law / scalar multiplication: algebraic identities over GF(p)/GF(2^m) through function-pointer field objects; every query contains modular inversion/multiplication facts no installed back end decides (measured: N>=2 limb products time out); exhaustive small curves are enumeration, not contracts",
  "C13": "bels threshold recovery is CRT over GF(2)[x] with extended GCD; no quantifier-free or SMT-decidable contract states 'any t shares recover the secret'",
